@@ -25,10 +25,14 @@ BASE = 0x1000
 BASES = [0x1000, 0x03fffff0, 0x08000000, 0x10000000, 0x40000000]
 FID = {"f": 1, "g": 2, "h": 3, "k": 4, "add": 5}
 # relrev: the entries of .rel.text in decreasing offset order (ELF does not order them); symrev: functions listed in
-# .symtab in the reverse of their order in .text
-VARIANTS = ["plain", "sections", "local", "big", "badfile", "unaligned", "mnemonic", "absjal", "shadow_fwd", "shadow_bwd", "relrev", "symrev"]
+# .symtab in the reverse of their order in .text; stripped: calls to static functions (section symbol + addend) whose
+# symbols were removed from .symtab (strip -x)
+VARIANTS = ["plain", "sections", "local", "big", "badfile", "unaligned", "mnemonic", "absjal", "shadow_fwd", "shadow_bwd", "relrev", "symrev", "stripped"]
 ABSJAL = 0x0c000100          # jal 0x400: a call to a fixed address, no relocation
 CPUS = ["mips", "ps2_ee", "pic32", "mips32"]
+
+
+STRIPPED = {}
 
 
 def build_files(sc, variant, d, cid):
@@ -54,7 +58,9 @@ def build_files(sc, variant, d, cid):
                         word = 0x0c000000
                         off = offs[fn["name"]] + 4 * w
                         relocs.append((off, calls[w]))
-                        if variant == "local" and calls[w] in offs and calls[w] != fn["name"]:
+                        if variant in ("local", "stripped") and calls[w] in offs and calls[w] != fn["name"]:
+                            if variant == "stripped":
+                                STRIPPED.setdefault(cid, set()).add(fn["name"])
                             # a call to a static function of the same object: section symbol + addend
                             word |= offs[calls[w]] >> 2
                             local_relocs.append(off)
@@ -70,7 +76,7 @@ def build_files(sc, variant, d, cid):
                 funcs = funcs[::-1]
             objs.append(("m%d_%d.o" % (fi, mi), elfobj.build_obj(dict(
                 text=text, funcs=funcs, relocs=relocs, endian=end, local_relocs=local_relocs,
-                local_funcs=[n for n in set(local_funcs)],
+                local_funcs=[n for n in set(local_funcs)], strip_locals=(variant == "stripped"),
                 extra_sections=2 if variant == "sections" else 0)), [x[0] for x in funcs]))
         if f["kind"] == "o":
             p = os.path.join(d, "%s_%d.o" % (cid, fi))
@@ -202,7 +208,7 @@ def run(tier, seed):
                         bs += list(b) if variant == "big" else list(b[::-1])
                     claims.append(dict(a=a, b=bs))
         events.append(dict(id=cid, files=sc["files"], refs=sc["refs"], base=bases[cid], end=end, big=(variant == "big"),
-                           badfile=(variant == "badfile"), own=own, rc=rc, out=hexb is not None,
+                           badfile=(variant == "badfile"), strip=sorted(STRIPPED.get(cid, [])), own=own, rc=rc, out=hexb is not None,
                            file=T.LEXERS["hex"](hexb) if hexb is not None else [], syms=syms, claims=claims))
 
     # canaries
